@@ -200,7 +200,7 @@ func (r *runner) read(id int, txFree bool, buf, partial int, rollback bool) read
 				}
 				break
 			}
-			if out.Len() > 64<<20 {
+			if out.Len() > 64<<20+len(r.model[id]) {
 				res.err = errors.New("reader delivered more than 64 MiB (runaway)")
 				break
 			}
